@@ -165,6 +165,7 @@ impl Sched {
   fn finish(&self, me: usize) {
     let mut g = self.st.lock().unwrap();
     g.finished[me] = true;
+    g.epoch += 1; // the code that ran since the last yield point may have been a real step
     if !g.stop {
       g.choose_next();
     }
